@@ -557,7 +557,7 @@ Quiescent ==
   /\ \A i \in 1..NDrv : task[DT(i)].pc = "run"
 EndLine ==
   Line("End") @@ [blocked |-> SetToSeq({[d |-> i, op |-> IF task[DT(i)].pc = "xaw" THEN "a" ELSE "idle"] : i \in {j \in 1..NDrv : task[DT(j)].pc # "run"}}),
-                  open |-> SetToSeq({a \in 1..nact : task[HT(a)].pc # "done"}), abort |-> "", failed |-> <<>>, crldone |-> <<>>]
+                  open |-> SetToSeq({a \in 1..nact : task[HT(a)].pc # "done"}), abort |-> "", failed |-> <<>>, crldone |-> <<>>, wal |-> <<>>]
 EndWitnesses == StepCore(Cfg, o, o, EndLine).wit
 \* at every state where nothing can move any more, the end-of-execution clauses hold (modulo recorded findings)
 TerminalOK == (~ENABLED Next) => Unexplained(EndWitnesses) = {}
